@@ -462,7 +462,13 @@ func GenIndex(t *rapid.T, name Ident, tb Table, unique, exprs, partial bool) Ind
 	perm := rapid.Permutation(ids).Draw(t, "icp")
 	for i := 0; i < n; i++ {
 		var s, asExpr string
-		if exprs && rapid.IntRange(0, 4).Draw(t, "iexpr") == 0 {
+		if exprs && rapid.IntRange(0, 24).Draw(t, "idqs") == 0 {
+			// a double-quoted name that is no column of the table: SQLite takes
+			// it for a string literal (an expression column on a constant)
+			s = rapid.SampledFrom([]string{`"no such column"`, `"zzz"`, `"nope"`}).Draw(t, "idqsname")
+			asExpr = "'" + strings.Trim(s, `"`) + "'"
+			ix.Plain = append(ix.Plain, false)
+		} else if exprs && rapid.IntRange(0, 4).Draw(t, "iexpr") == 0 {
 			s = GenExpr(t, ids, rapid.IntRange(0, 3).Draw(t, "iexprsimple") > 0)
 			ix.Plain = append(ix.Plain, false)
 		} else {
@@ -488,7 +494,7 @@ func GenIndex(t *rapid.T, name Ident, tb Table, unique, exprs, partial bool) Ind
 			// column decides whether SQLite appends the key column again
 			s += " COLLATE " + rapid.SampledFrom([]string{"BINARY", "binary"}).Draw(t, "icollwrn")
 		}
-		if !ix.Plain[len(ix.Plain)-1] {
+		if !ix.Plain[len(ix.Plain)-1] && !strings.HasPrefix(ix.Exprs[len(ix.Exprs)-1], "'") {
 			// the COLLATE is part of what the expression computes: after a
 			// comparison it belongs to the right operand and decides the
 			// result (a = b COLLATE RTRIM)
